@@ -197,6 +197,8 @@ pub struct Stats {
     pub skipped_configs: u64,
     pub outputs: HashSet<u64>,
     pub extra: BTreeMap<String, u64>,
+    /// a few complete operation sequences this run actually executed
+    pub sample_traces: Vec<Vec<f64>>,
 }
 
 impl Stats {
@@ -219,6 +221,11 @@ impl Stats {
         }
         for (k, v) in o.extra {
             *self.extra.entry(k).or_insert(0) += v;
+        }
+        for t in o.sample_traces {
+            if self.sample_traces.len() < 8 {
+                self.sample_traces.push(t);
+            }
         }
     }
     pub fn out(&mut self, x: Option<f64>) {
@@ -333,6 +340,9 @@ pub fn finish(property: &str, tier: &str, seed: u64, wall_s: f64, mut out: Check
         println!("({} further violation(s) in already-reported (view, clause) groups not printed)", suppressed);
     }
     let s = &out.stats;
+    for t in &s.sample_traces {
+        out.samples.push(json!({"executed_operation_sequence": t}));
+    }
     let mut coverage = json!({
         "states": s.states,
         "transitions": s.transitions,
